@@ -58,6 +58,7 @@ _CFG = {
     "ArrayDecl": ["type", "dim", "dim_quals"], "BinaryOp": ["op", "left", "right"],
     "Cast": ["to_type", "expr"], "ExprList": ["exprs"], "FuncCall": ["name", "args"],
     "InitList": ["exprs"], "UnaryOp": ["op", "expr"],
+    "Typedef": ["name", "quals", "storage", "type"],
 }
 
 
